@@ -232,6 +232,22 @@ func c15H264(c *fw.Ctx, i int) {
 	avc := r.Bool()
 	frame1 := c15H264Train(r, r.Pick(10, 10, 10, 14))
 	frame2 := c15H264Train(r, 12)
+	if r.Chance(1, 5) {
+		// the same frame again (a retransmission, a repeated parameter-set packet): byte-identical starts must not be mistaken for
+		// duplicates of what is pending; in half of the cases the continuation fragments differ from the first transmission
+		frame2 = nil
+		differ := r.Bool()
+		for _, p := range frame1 {
+			q := append([]byte(nil), p...)
+			if differ && len(q) > 2 && q[0]&0x1F == 28 && q[1]&0x80 == 0 {
+				for k := 2; k < len(q); k++ {
+					q[k] ^= 0x3C
+				}
+			}
+			frame2 = append(frame2, q)
+		}
+		c.Count("later_frame_repeats_the_earlier_frame", 1)
+	}
 	var garbage, frame1b [][]byte
 	switch r.Intn(5) {
 	case 0:
